@@ -20,6 +20,38 @@ pub struct DiskDevices { pub devices: Vec<DiskDevice> }  // ctx.devices[i] index
 pub struct GroupCtx { pub devices: Vec<DiskDevice> }     // stand-in: `ctx.devices[i]`
 pub struct FileGroupHdr { pub file_len: FileLen }        // the one field of FileGroup the pre-filters read
 
+// the hasher as the stage closures see it: hashing a chunk yields Some(hash of exactly that chunk) or None when the file
+// could not be read (ASSUMED contract of FileHasher::hash_file_or_log_err: Kani units c15_hash_file_* + Verus unit scan_loop)
+#[verifier::external_body] pub struct FileHash { _p: () }
+pub uninterp spec fn chunk_hash(pos: u64, len: u64) -> FileHash;
+pub uninterp spec fn readable() -> bool;
+pub uninterp spec fn xor_spec(a: FileHash, b: FileHash) -> FileHash;
+pub struct Hasher { _p: () }
+impl Hasher {
+    #[verifier::external_body]
+    pub fn hash_file_or_log_err<F: Fn(usize)>(&self, chunk: &FileChunk<'_>, progress: F) -> (r: Option<FileHash>)
+        ensures
+            r is Some <==> readable(),
+            r is Some ==> r->Some_0 == chunk_hash(chunk.pos.0, chunk.len.0),
+    { unimplemented!() }
+}
+pub struct Progress { _p: () }
+impl Progress {
+    #[verifier::external_body]
+    pub fn inc(&self, n: u64) { unimplemented!() }
+}
+pub struct Ctx { pub devices: Vec<DiskDevice>, pub hasher: Hasher }
+impl std::ops::BitXor for FileHash {
+    type Output = FileHash;
+    #[verifier::external_body]
+    fn bitxor(self, rhs: FileHash) -> (r: FileHash) { unimplemented!() }
+}
+impl vstd::std_specs::ops::BitXorSpecImpl<FileHash> for FileHash {
+    open spec fn obeys_bitxor_spec() -> bool { true }
+    open spec fn bitxor_req(self, rhs: FileHash) -> bool { true }
+    open spec fn bitxor_spec(self, rhs: FileHash) -> FileHash { xor_spec(self, rhs) }
+}
+
 // ASSUMED: std::cmp::{min,max} on FileLen follow the derived Ord of the one-field tuple struct (= order of the u64)
 pub uninterp spec fn min_spec<T>(a: T, b: T) -> T;
 pub uninterp spec fn max_spec<T>(a: T, b: T) -> T;
@@ -107,21 +139,22 @@ fn device_consts(dd: &DiskDevice)
     assert(c.0 <= t.0); // @ob C01.device_consts.default_suffix_len_le_threshold
 }
 
-// ---- statement slice of group_by_prefix (body of the hashing closure)
-fn prefix_slice<'a>(ctx: &GroupCtx, fi: &'a FileInfo, prefix_len: FileLen) -> (chunk: FileChunk<'a>)
+// ---- whole body of the hashing closure of group_by_prefix: the new key of the file
+fn prefix_closure(ctx: &Ctx, fi: &FileInfo, prefix_len: FileLen, progress: &Progress) -> (r: Option<FileHash>)
     requires fi.dev_idx() < ctx.devices.len(),
     ensures
-        chunk.pos.0 == 0, // @ob C01.stage_chunks.prefix_starts_at_zero
-        fi.len.0 <= prefix_len.0 ==> chunk.len.0 >= fi.len.0, // @ob C01.stage_chunks.small_files_hashed_whole_in_prefix_stage
-        chunk.len.0 >= 4096 || chunk.len.0 == prefix_len.0, // @ob C01.stage_chunks.prefix_len_is_requested_or_device_minimum
+        r is Some <==> readable(), // @ob C15.stage.prefix_unreadable_file_gets_no_key
+        r is Some ==> exists|l: u64| r->Some_0 == chunk_hash(0, l) && (fi.len.0 <= prefix_len.0 ==> l >= fi.len.0)
+            && (l >= 4096 || l == prefix_len.0), // @ob C01.stage_chunks.small_files_hashed_whole_in_prefix_stage
 {
     broadcast use min_filelen, max_filelen;
 ''')
     fn = g.item("fn group_by_prefix(")
     # structural anchor: the hashing closure is the 6th argument of `rehash(`; its statements up to `let chunk = ..;`
-    ub.piece(Piece(g.block_until_stmt(g.call_arg(fn, "rehash", 5), "let chunk = FileChunk::new("), drop_tokens=("progress.inc(1);",)))
+    # `|_| {}` (Verus does not accept a wildcard closure parameter) is renamed to a named, typed parameter
+    NOP = (("|_| {}", "|_verif_unused: usize| {}"),)
+    ub.piece(Piece(g.block_contents(g.call_arg(fn, "rehash", 5)), renames=NOP))
     ub.spec('''
-    chunk
 }
 
 // ---- expression slice: length condition of the pre-filter of group_by_contents
@@ -134,14 +167,15 @@ fn contents_prefilter_len(g: &FileGroupHdr, min_file_len: FileLen) -> (r: bool)
     ub.spec('''
 }
 
-// ---- statement slice of group_by_contents (body of the hashing closure)
-fn contents_slice<'a>(fi: &'a FileInfo) -> (chunk: FileChunk<'a>)
-    ensures chunk.pos.0 == 0 && chunk.len.0 == fi.len.0, // @ob C01.stage_chunks.contents_stage_hashes_whole_file
+// ---- whole body of the hashing closure of group_by_contents: the final key of the file
+fn contents_closure(ctx: &Ctx, fi: &FileInfo, progress: &Progress) -> (r: Option<FileHash>)
+    ensures
+        r is Some <==> readable(), // @ob C15.stage.contents_unreadable_file_is_never_reported
+        r is Some ==> r->Some_0 == chunk_hash(0, fi.len.0), // @ob C01.stage_chunks.contents_stage_hashes_whole_file
 {
 ''')
-    ub.piece(Piece(g.block_until_stmt(g.call_arg(fnc, "rehash", 5), "let chunk = FileChunk::new(")))
+    ub.piece(Piece(g.block_contents(g.call_arg(fnc, "rehash", 5)), renames=(("|bytes_read| progress", "|bytes_read: usize| progress"),)))
     ub.spec('''
-    chunk
 }
 
 // ---- expression slice: length condition of the pre-filter of group_by_suffix
@@ -154,16 +188,29 @@ fn suffix_prefilter_len(g: &FileGroupHdr, suffix_threshold: FileLen) -> (r: bool
     ub.spec('''
 }
 
-// ---- statement slice of group_by_suffix (body of the hashing closure). The pre-filter (above) admits only
-// groups with file_len >= suffix_threshold, and every file of a group has fi.len == g.file_len (rehash, assumed).
-// `suffix_len` is whatever group_by_suffix computed: --max-suffix-size if given, else the device default.
-fn suffix_slice<'a>(fi: &'a FileInfo, suffix_len: FileLen, suffix_threshold: FileLen) -> (chunk: FileChunk<'a>)
+// ---- whole body of the hashing closure of group_by_suffix. The pre-filter (above) admits only groups with
+// file_len >= suffix_threshold, and every file of a group has fi.len == g.file_len (rehash, assumed). `suffix_len` is
+// whatever group_by_suffix computed: --max-suffix-size if given, else the device default. The new key combines the old
+// one with the hash of a chunk that ends at the end of the file; an unreadable file gets NO key (it is dropped).
+fn suffix_closure(ctx: &Ctx, fi: &FileInfo, old_hash: FileHash, suffix_len: FileLen, suffix_threshold: FileLen, progress: &Progress) -> (r: Option<FileHash>)
+    requires fi.len.0 >= suffix_threshold.0,
+    ensures
+        r is Some <==> readable(), // @ob C15.stage.suffix_unreadable_file_gets_no_key
+{
+    broadcast use min_filelen, max_filelen;
+''')
+    ub.piece(Piece(g.block_contents(g.call_arg(fns, "rehash", 5)), renames=NOP))
+    ub.spec('''
+}
+
+// ---- statements of the same closure up to the construction of the chunk: where the suffix chunk lies
+fn suffix_slice<'a>(fi: &'a FileInfo, suffix_len: FileLen, suffix_threshold: FileLen, progress: &Progress) -> (chunk: FileChunk<'a>)
     requires fi.len.0 >= suffix_threshold.0,
     ensures chunk.pos.0 + chunk.len.0 == fi.len.0, // @ob C01.stage_chunks.suffix_chunk_ends_at_end_of_file
 {
     broadcast use min_filelen, max_filelen;
 ''')
-    ub.piece(Piece(g.block_until_stmt(g.call_arg(fns, "rehash", 5), "let chunk = FileChunk::new("), drop_tokens=("progress.inc(1);",)))
+    ub.piece(Piece(g.block_until_stmt(g.call_arg(fns, "rehash", 5), "let chunk = FileChunk::new(")))
     ub.spec('''
     chunk
 }
